@@ -288,6 +288,12 @@ def _analyse_target(case, tier, props, p, meta, tdir, res, tr, jac_terms, seed):
         rx = ref_reactions(case, meta)
         if len(rx) != NR and not (len(rx) == 0 and NR == 1):
             _viol(res, "C01", f"{tag}:NREACTIONS", f"NREACTIONS={NR} but network has {len(rx)} reactions", {"case": case.name})
+        lost = sorted({a_ for rs, ps in rx for a_ in rs + ps if a_ not in slots})
+        if lost:
+            # a species of the reactions that were fed has no slot in the generated system: nothing to compare term by term
+            _viol(res, "C01", f"{tag}:species-without-slot", f"species {lost} of the input reactions have no equation in the generated system (no index macro): their reactions cannot obey the mass-action law", {"case": case.name, "target": tdir, "spec": _small_spec(case),
+                  "slots": {k_: int(v_) for k_, v_ in slots.items()}, "replay_note": "render the spec; naunet_macros.h lists the IDX_ macros"})
+            return
         ref = mass_action(z3.RealVal(0), fex.y, fex.k, rx, slots, NS)
         if thermal:
             ts = thermal_sum(z3.RealVal(0), fex.y, fex.kh, fex.kc, meta, slots, case.canon)
